@@ -400,6 +400,8 @@ pub fn execute_ct(exe: &Path, sc: &DScenario, dir: &Path) -> Vec<DFinding> {
     std::fs::write(&gy, sc.gram.render()).expect("write g.y");
     std::fs::write(&gl, sc.gram.render_lexer()).expect("write g.l");
     let mut first: Option<(u64, Vec<(String, Option<Vec<u8>>)>, bool)> = None;
+    // probe text for the run-time lexer: every token's text in lower and in upper case
+    let probe: String = sc.gram.tokens.iter().map(|(_, re)| format!("{re} {} ", re.to_uppercase())).collect();
     for (si, &seed) in sc.seeds.iter().enumerate() {
         // same bytes, another modification time: every build process sees freshly "checked out"
         // sources (simulated stamps, one hour apart)
@@ -420,13 +422,30 @@ pub fn execute_ct(exe: &Path, sc: &DScenario, dir: &Path) -> Vec<DFinding> {
             token_map_dir: Some(out.to_str().unwrap().into()),
             fsize_limit: None,
             fsize_mode: None,
+            prelude: vec![],
+            lex_probe: Some(probe.clone()),
+        };
+        // Every other process builds a sibling first, as a build.rs with several grammars does:
+        // the same sources with another storage type and a case-insensitive lexer, to other
+        // paths. The build proper (and the lexer it yields at run time) must not notice.
+        let spec = if si % 2 == 1 {
+            let mut pre = spec.clone();
+            pre.parser_out = out.join("pre.y.rs").to_str().unwrap().into();
+            pre.lexer_out = out.join("pre.l.rs").to_str().unwrap().into();
+            pre.parser.storaget = Some("u16".into());
+            pre.lexer.case_insensitive = Some(true);
+            pre.token_map_dir = None;
+            BuildSpec { prelude: vec![pre], ..spec }
+        } else {
+            spec
         };
         let (code, res) = run_build_child(exe, &spec, dir, &seed.to_string());
         let ok = code == Some(0) && res.as_ref().map_or(false, |r| r.ok);
         if std::env::var("VERIF_D_DEBUG").is_ok() && !ok {
             eprintln!("ct build failed: code {:?} {:?}", code, res.as_ref().map(|r| r.error.chars().take(300).collect::<String>()));
         }
-        let files: Vec<(String, Option<Vec<u8>>)> = ["g.y.rs", "g.l.rs", "token_map.rs"].iter().map(|f| (f.to_string(), std::fs::read(out.join(f)).ok())).collect();
+        let mut files: Vec<(String, Option<Vec<u8>>)> = ["g.y.rs", "g.l.rs", "token_map.rs"].iter().map(|f| (f.to_string(), std::fs::read(out.join(f)).ok())).collect();
+        files.push(("runtime-lexer-probe".into(), res.as_ref().and_then(|r| r.lex_dump.clone()).map(|s| s.into_bytes())));
         match &first {
             None => first = Some((seed, files, ok)),
             Some((s0, f0, ok0)) => {
@@ -704,7 +723,7 @@ pub fn check_main(tier: &str) -> i32 {
     extra.insert("distinct_hashset_iteration_orders_realised_by_16_probe_seeds".into(), json!(orders.len()));
     extra.insert("fault_kinds_fired".into(), json!({"per_process_hash_seed_change": count * (nseeds as u64 - 1) + t.ct_builds.saturating_sub(ct_count)}));
     extra.insert("event_log_hash".into(), json!(format!("{:016x}", t.loghash)));
-    extra.insert("real_components".into(), json!(["cfgrammar::yacc (parser, ast, grammar, firsts, follows)", "lrtable (itemset, pager, stategraph, statetable)", "lrpar::CTParserBuilder, lrlex::CTLexerBuilder, lrlex::CTTokenMapBuilder (child processes)"]));
+    extra.insert("real_components".into(), json!(["cfgrammar::yacc (parser, ast, grammar, firsts, follows)", "lrtable (itemset, pager, stategraph, statetable)", "lrpar::CTParserBuilder, lrlex::CTLexerBuilder, lrlex::CTTokenMapBuilder (child processes)", "lrlex::LRNonStreamingLexerDef::new_with_options + lexer (in the build child, after the builds)"]));
     extra.insert("stub_components".into(), json!(["getrandom: SplitMix64 stream per simulated process (fresh thread or child process main thread)"]));
     let ev = Evidence {
         property: "C15".into(),
@@ -712,7 +731,7 @@ pub fn check_main(tier: &str) -> i32 {
         seed,
         evaluations: count + ct_count,
         distinct_nontrivial: t.digests.len() as u64,
-        rule: format!("grammar i of stream VERIF_SEED (all yacc kinds incl. Eco with 0-4 implicit tokens; random %token/%left/%right/%nonassoc/%epp/%avoid_insert/%expect/%parse-param/actions) built in {nseeds} simulated processes with independent hash seeds, every public query of YaccGrammar/StateGraph/StateTable dumped and compared (conflicts as sets); {ct_count} further grammars run through the real compile-time builders in {ct_seeds} child processes each and the generated files compared byte for byte. Non-trivial = the grammar builds (table constructed); distinct = distinct grammar text."),
+        rule: format!("grammar i of stream VERIF_SEED (all yacc kinds incl. Eco with 0-4 implicit tokens; random %token/%left/%right/%nonassoc/%epp/%avoid_insert/%expect/%parse-param/actions) built in {nseeds} simulated processes with independent hash seeds, every public query of YaccGrammar/StateGraph/StateTable dumped and compared (conflicts as sets); {ct_count} further grammars run through the real compile-time builders in {ct_seeds} child processes each (sources re-stamped with another modification time per process; every other process first builds a sibling - same sources, another storage type, case-insensitive lexer - to other paths, as a build.rs with several grammars does) and the generated files compared byte for byte, together with what the lexer created at run time from the same source and flags yields on a probe text. Non-trivial = the grammar builds (table constructed); distinct = distinct grammar text."),
         samples: t.samples.clone(),
         extra,
         assumptions: vec!["std::collections::HashMap/HashSet obtain their keys through the libc symbol getrandom (self-tested)".into(), "generated files are compared without masking: all children share one lrpar/lrlex build, so the embedded build timestamp is identical".into()],
